@@ -114,6 +114,11 @@ def run(prop, tier, seed, replay):
         # controls
         add("control-centres", dict(common, columns=base_cols(), centres=centres), "ok")
         add("control-ids", dict(common, columns=base_cols(True), patch_name=True), "ok")
+        # fault-free controls from files: "a catalog holding exactly the input" for a Parquet file written in pieces (row groups of
+        # unequal size, one larger and several smaller than a chunk) and for an HDF5 file
+        add("control-parquet-unequal-row-groups", dict(common, columns=base_cols(), centres=centres, source="parquet",
+                                                       row_groups=[17, 3, 11, 9]), "ok")
+        add("control-hdf5", dict(common, columns=base_cols(), centres=centres, source="hdf5"), "ok")
         for pname, idx in positions.items():
             for col, val in (("ra", float("nan")), ("dec", float("inf")), ("w", float("nan")), ("z", float("-inf"))):
                 if tier == "quick" and (col, pname) not in (("ra", "first"), ("dec", "middle"), ("w", "last"), ("z", "middle")):
